@@ -163,6 +163,18 @@ func c15R1(p *core.Program, r *core.Report) {
 	if splitCalls == 0 {
 		r.Unknown(rule, fn, "case ',': split call", comma.Pos(), "no call of the local split closure found in the ',' arm")
 	}
+	// the offsets handed to the cut are byte offsets of the string that is cut: the scan ranges over the string itself
+	// (the key of a range over a string is a byte offset; over a []rune copy it is a rune count, which is a different
+	// number as soon as a multi-byte character precedes the comma)
+	for _, anc := range core.PathTo(fn.Body, sw) {
+		rs, isRange := anc.(*ast.RangeStmt)
+		if !isRange || rs.Key == nil || core.VarOf(info, rs.Value) == nil || core.VarOf(info, rs.Value) != core.VarOf(info, sw.Tag) {
+			continue
+		}
+		b, isBasic := info.TypeOf(rs.X).Underlying().(*types.Basic)
+		r.Check(isBasic && b.Info()&types.IsString != 0, rule, fn, "the scan's offsets are byte offsets of the scanned string", rs.Pos(), "range over the string itself",
+			"the scan ranges over `"+core.ExprStr(rs.X)+"`, whose index is not a byte offset, while the pieces are cut out of the string by byte offset: with a multi-byte character before a top-level comma the cut lands inside a character or in the wrong place (`a.Pair[b.Gr\u00f6\u00dfe,b.Item]`)")
+	}
 	// nothing else writes the counter inside the loop
 	if open != nil {
 		n := 0
